@@ -62,6 +62,8 @@ package adapter
 // dependencies are present and the IBC adapter controller is the route of PROTOCOL_IBC.
 //@ macro ibcRoute(a) = mapGet(a.router.routes, core.PROTOCOL_IBC)
 //@ func (a *Adapter) AdaptPacket(ctx, id, packet) (op, err)
+//   (the decoded payload and its action list are recorded by the JSON parser: ghosts dec_*)
+//@   modifies dec_payload, dec_actions
 //@   requires[inv] a != nil && a.logger != nil && a.router != nil
 //@   requires[inv] mapHas(a.router.routes, core.PROTOCOL_IBC) && tag(ibcRoute(a)) != 0 && routesNonNil(a.router)
 
